@@ -450,7 +450,14 @@ impl Prop for C10 {
         label_ws(ws, cx);
         cx.label_if(case.opts.threads > 1, "threads>1");
         let root = cx.env.fresh_dir("c10-");
-        ws.spec.materialise(&root);
+        let first = case.prior.min(ws.applicable());
+        let mut spec = ws.spec.clone();
+        if first > 0 {
+            cx.label("prior-applied-state");
+            spec.tree = ws.states[first].clone();
+            spec.applied = Some(crate::bytes::B(ws.names()[..first].iter().map(|n| format!("{}\n", n)).collect::<String>().into_bytes()));
+        }
+        spec.materialise(&root);
         // real run on a copy
         let copy = cx.env.fresh_dir("c10r-");
         ws::copy_tree(&root, &copy);
@@ -459,7 +466,7 @@ impl Prop for C10 {
         let or = push(cx, &copy, &real, &Default::default());
         let before_real = {
             let t = cx.env.fresh_dir("c10s-");
-            ws.spec.materialise(&t);
+            spec.materialise(&t);
             let s = ws::snapshot(&t);
             ws::rm_rf(&t);
             s
